@@ -122,3 +122,21 @@ package transport
 //@   callsite addQueueC: [C05:private-channel] fresh(arg1)
 //@   callsite write: [C05:assigned-id-on-wire] addErr == nil && arg2 == gq && sameSlice(arg1, m, 0, len(m))
 //@   callsite deleteQueueC: [C05:removes-own-id] arg1 == gq
+
+// ---- constructors (assumed: they allocate the transport and start its pool; nothing the caller holds changes)
+//@ func NewDoHTransport(opts DoHTransportOpts) (t *DoHTransport, err error)
+//@   trusted
+//@   modifies nothing
+//@   ensures (err == nil) == (t != nil)
+//@ func NewPipelineTransport(opts PipelineOpts) (t *PipelineTransport)
+//@   trusted
+//@   modifies nothing
+//@   ensures t != nil && fresh(t)
+//@ func NewQuicTransport(opts QuicTransportOpts) (t *QuicTransport)
+//@   trusted
+//@   modifies nothing
+//@   ensures t != nil && fresh(t)
+//@ func NewReuseConnTransport(opts ReuseConnOpts) (t *ReuseConnTransport)
+//@   trusted
+//@   modifies nothing
+//@   ensures t != nil && fresh(t)
